@@ -12,6 +12,20 @@
 //!   cond  := prefix notation, tokens separated by `,`:  `&` c c | `/` c c | atom
 //! obs   := `<provable 1|0|err> <facts after, sorted by field index> <undo depth after> <#solutions>`
 //! Rule i is named `R<i>`; field i is FIELDS[i].
+//!
+//! Extensions (reach audit): cfg := `<D|B|I|N><max_depth>s<max_solutions>[m][v<k>]`
+//!   `N` = the engine is built by `BackwardEngine::new(kb)` (default configuration: the case text must say `N10s1`, memo on);
+//!   `m` = `enable_memoization = true` in a HISTORY (single-query cases always run with memoisation on, as before);
+//!   `v<k>` = field vocabulary k (VOCS[k]; v0 = FIELDS): field i is VOCS[k][i] — v1 holds names that START WITH / CONTAIN
+//!   query keywords (NOTE, NOTIFY.Sent, NOT.Q, ORDER, ANDROID, trueCount, nullable, inStock)
+//! HISTORY on ONE engine: a 5th token `<step>@<step>@…`; the engine is built from cfg + rules, then the steps run in order
+//! (the base `<facts> <query>` is asked only where a `?` step says so):
+//!   `?` query (base facts, base query; fresh Facts every time) | `?<facts>?<query>` query with its own facts / goal
+//!   | `w` the base query through `explain_why` | `+<i>:<rule>` `engine.knowledge_base().add_rule` under the name `R<i>`
+//!   (an existing name is rejected by add_rule: no change) | `-<i>` remove_rule("R<i>") | `e<i>` / `d<i>` set_rule_enabled
+//!   | `z` knowledge_base().clear() | `x` engine.rebuild_index() | `c<cfg>` engine.set_config (cfg without `N` / `v`)
+//! obs of a history := the query observations in order, joined by ` / ` (`-` when there is none); `explain_why` has `-` as
+//! #solutions; a configuration read back through `engine.config()` that differs from the one set is reported as `cfg-mismatch`.
 use rre_harness::*;
 use rust_rule_engine::backward::backward_engine::{BackwardConfig, BackwardEngine};
 use rust_rule_engine::backward::search::SearchStrategy;
@@ -22,6 +36,13 @@ use rust_rule_engine::types::{ActionType, LogicalOperator, Operator, Value};
 
 /// field 10 is the key a value-returning MethodCall on `E` (field 4) writes its result to
 pub const FIELDS: [&str; 11] = ["A", "B", "C", "D", "E", "G", "X", "Y", "U.P", "U.Q", "E._return"];
+
+/// field vocabularies: VOCS[0] = FIELDS; VOCS[1] = names that start with / contain keywords of the query language
+/// (flat alphanumeric names at 0..8, dotted ones at 8, 9; field 10 = `<field 4>._return`)
+pub const VOCS: [[&str; 11]; 2] = [
+    FIELDS,
+    ["NOTICE", "ORDER", "ANDROID", "trueCount", "NOTE", "nullable", "X", "inStock", "NOTIFY.Sent", "NOT.Q", "NOTE._return"],
+];
 
 fn parse_scalar(s: &str) -> Option<Value> {
     match s.chars().next()? {
@@ -90,12 +111,12 @@ fn parse_atom(s: &str) -> Option<(usize, Operator, Value)> {
     Some((parse_field(p[0])?, parse_op(p[1])?, parse_val(p[2])?))
 }
 
-fn parse_cond(toks: &[&str], pos: &mut usize) -> Option<ConditionGroup> {
+fn parse_cond(toks: &[&str], pos: &mut usize, nm: &[&str; 11]) -> Option<ConditionGroup> {
     let t = *toks.get(*pos)?;
     *pos += 1;
     if t == "&" || t == "/" {
-        let l = parse_cond(toks, pos)?;
-        let r = parse_cond(toks, pos)?;
+        let l = parse_cond(toks, pos, nm)?;
+        let r = parse_cond(toks, pos, nm)?;
         Some(ConditionGroup::Compound {
             left: Box::new(l),
             operator: if t == "&" { LogicalOperator::And } else { LogicalOperator::Or },
@@ -103,11 +124,11 @@ fn parse_cond(toks: &[&str], pos: &mut usize) -> Option<ConditionGroup> {
         })
     } else {
         let (f, op, v) = parse_atom(t)?;
-        Some(ConditionGroup::Single(Condition::new(FIELDS[f].to_string(), op, v)))
+        Some(ConditionGroup::Single(Condition::new(nm[f].to_string(), op, v)))
     }
 }
 
-fn parse_rule(i: usize, s: &str) -> Option<Rule> {
+fn parse_rule(i: usize, s: &str, nm: &[&str; 11]) -> Option<Rule> {
     let (s, enabled) = match s.strip_prefix('*') {
         Some(r) => (r, false),
         None => (s, true),
@@ -115,29 +136,29 @@ fn parse_rule(i: usize, s: &str) -> Option<Rule> {
     let (c, a) = s.split_once('~')?;
     let toks: Vec<&str> = c.split(',').collect();
     let mut pos = 0;
-    let cond = parse_cond(&toks, &mut pos)?;
+    let cond = parse_cond(&toks, &mut pos, nm)?;
     if pos != toks.len() {
         return None;
     }
     let mut acts = Vec::new();
     for asg in a.split('+') {
         if let Some((f, v)) = asg.split_once(":=") {
-            acts.push(ActionType::Set { field: FIELDS[parse_field(f)?].to_string(), value: parse_val(v)? });
+            acts.push(ActionType::Set { field: nm[parse_field(f)?].to_string(), value: parse_val(v)? });
         } else if let Some((f, v)) = asg.split_once("<<") {
-            acts.push(ActionType::Append { field: FIELDS[parse_field(f)?].to_string(), value: parse_scalar(v)? });
+            acts.push(ActionType::Append { field: nm[parse_field(f)?].to_string(), value: parse_scalar(v)? });
         } else if let Some(f) = asg.strip_suffix("$g") {
             if parse_field(f)? != 4 {
                 return None;
             }
-            acts.push(ActionType::MethodCall { object: FIELDS[4].to_string(), method: "getSpeed".to_string(), args: vec![] });
+            acts.push(ActionType::MethodCall { object: nm[4].to_string(), method: "getSpeed".to_string(), args: vec![] });
         } else if let Some((f, n)) = asg.split_once('$') {
             acts.push(ActionType::MethodCall {
-                object: FIELDS[parse_field(f)?].to_string(),
+                object: nm[parse_field(f)?].to_string(),
                 method: "setSpeed".to_string(),
                 args: vec![Value::Number(n.parse::<i64>().ok()? as f64)],
             });
         } else {
-            acts.push(ActionType::Retract { object: FIELDS[parse_field(asg.strip_suffix('!')?)?].to_string() });
+            acts.push(ActionType::Retract { object: nm[parse_field(asg.strip_suffix('!')?)?].to_string() });
         }
     }
     let mut r = Rule::new(format!("R{}", i), cond, acts);
@@ -167,6 +188,28 @@ fn lit_str(v: &Value) -> String {
     }
 }
 
+pub struct Cfg {
+    pub strategy: SearchStrategy,
+    pub max_depth: usize,
+    pub max_solutions: usize,
+    /// `m`: enable_memoization in a history
+    pub memo: bool,
+    /// `N`: built by `BackwardEngine::new` (default configuration)
+    pub via_new: bool,
+    pub voc: usize,
+}
+
+pub enum Step {
+    /// facts, query text, through explain_why
+    Query(Vec<(usize, Value)>, String, bool),
+    Add(Rule),
+    Remove(usize),
+    Enable(usize, bool),
+    Clear,
+    Rebuild,
+    SetConfig(Cfg),
+}
+
 pub struct Case {
     pub strategy: SearchStrategy,
     pub max_depth: usize,
@@ -174,47 +217,131 @@ pub struct Case {
     pub facts: Vec<(usize, Value)>,
     pub query: String,
     pub rules: Vec<Rule>,
+    pub voc: usize,
+    pub via_new: bool,
+    pub memo: bool,
+    /// `None`: a single query on a fresh engine (4-token case)
+    pub steps: Option<Vec<Step>>,
 }
 
-pub fn parse_case(case: &str) -> Option<Case> {
-    let t: Vec<&str> = case.split_whitespace().collect();
-    if t.len() != 4 {
-        return None;
-    }
-    let strategy = match &t[0][..1] {
-        "D" => SearchStrategy::DepthFirst,
-        "B" => SearchStrategy::BreadthFirst,
-        "I" => SearchStrategy::Iterative,
+pub fn parse_cfg(t: &str) -> Option<Cfg> {
+    let (strategy, via_new) = match t.get(..1)? {
+        "D" => (SearchStrategy::DepthFirst, false),
+        "B" => (SearchStrategy::BreadthFirst, false),
+        "I" => (SearchStrategy::Iterative, false),
+        "N" => (SearchStrategy::DepthFirst, true),
         _ => return None,
     };
-    let (d, s) = t[0][1..].split_once('s')?;
+    let (rest, voc) = match t[1..].split_once('v') {
+        Some((r, v)) => (r, v.parse::<usize>().ok().filter(|v| *v < VOCS.len())?),
+        None => (&t[1..], 0),
+    };
+    let (rest, memo) = match rest.strip_suffix('m') {
+        Some(r) => (r, true),
+        None => (rest, false),
+    };
+    let (d, s) = rest.split_once('s')?;
+    let c = Cfg { strategy, max_depth: d.parse().ok()?, max_solutions: s.parse().ok()?, memo: memo || via_new, via_new, voc };
+    if via_new && (c.max_depth != 10 || c.max_solutions != 1) {
+        return None; // `new` has one configuration: the text has to say what it is
+    }
+    Some(c)
+}
+
+fn parse_facts(t: &str) -> Option<Vec<(usize, Value)>> {
     let mut facts = Vec::new();
-    if t[1] != "-" {
-        for kv in t[1].split(',') {
+    if t != "-" {
+        for kv in t.split(',') {
             let (k, v) = kv.split_once('=')?;
             facts.push((parse_field(k)?, parse_val(v)?));
         }
     }
-    let (neg, qa) = match t[2].strip_prefix('!') {
+    Some(facts)
+}
+
+fn parse_query(t: &str, nm: &[&str; 11]) -> Option<String> {
+    let (neg, qa) = match t.strip_prefix('!') {
         Some(r) => ("NOT ", r),
-        None => ("", t[2]),
+        None => ("", t),
     };
     let (qf, qop, qv) = parse_atom(qa)?;
-    let query = format!("{}{} {} {}", neg, FIELDS[qf], op_str(&qop), lit_str(&qv));
+    Some(format!("{}{} {} {}", neg, nm[qf], op_str(&qop), lit_str(&qv)))
+}
+
+fn parse_step(s: &str, facts: &[(usize, Value)], query: &str, nm: &[&str; 11]) -> Option<Step> {
+    let num = |x: &str| x.parse::<usize>().ok();
+    Some(match s.chars().next()? {
+        '?' if s == "?" => Step::Query(facts.to_vec(), query.to_string(), false),
+        '?' => {
+            let (f, q) = s[1..].split_once('?')?;
+            Step::Query(parse_facts(f)?, parse_query(q, nm)?, false)
+        }
+        'w' if s == "w" => Step::Query(facts.to_vec(), query.to_string(), true),
+        '+' => {
+            let (i, r) = s[1..].split_once(':')?;
+            Step::Add(parse_rule(num(i)?, r, nm)?)
+        }
+        '-' => Step::Remove(num(&s[1..])?),
+        'e' => Step::Enable(num(&s[1..])?, true),
+        'd' => Step::Enable(num(&s[1..])?, false),
+        'z' if s == "z" => Step::Clear,
+        'x' if s == "x" => Step::Rebuild,
+        'c' => {
+            let c = parse_cfg(&s[1..])?;
+            if c.via_new || c.voc != 0 {
+                return None;
+            }
+            Step::SetConfig(c)
+        }
+        _ => return None,
+    })
+}
+
+pub fn parse_case(case: &str) -> Option<Case> {
+    let t: Vec<&str> = case.split_whitespace().collect();
+    if t.len() != 4 && t.len() != 5 {
+        return None;
+    }
+    let cfg = parse_cfg(t[0])?;
+    let nm = &VOCS[cfg.voc];
+    let facts = parse_facts(t[1])?;
+    let query = parse_query(t[2], nm)?;
     let mut rules = Vec::new();
     if t[3] != "-" {
         for (i, r) in t[3].split(';').enumerate() {
-            rules.push(parse_rule(i, r)?);
+            rules.push(parse_rule(i, r, nm)?);
         }
     }
-    Some(Case { strategy, max_depth: d.parse().ok()?, max_solutions: s.parse().ok()?, facts, query, rules })
+    let steps = if t.len() == 5 {
+        let mut v = Vec::new();
+        if t[4] != "-" {
+            for s in t[4].split('@') {
+                v.push(parse_step(s, &facts, &query, nm)?);
+            }
+        }
+        Some(v)
+    } else {
+        None
+    };
+    Some(Case {
+        strategy: cfg.strategy,
+        max_depth: cfg.max_depth,
+        max_solutions: cfg.max_solutions,
+        facts,
+        query,
+        rules,
+        voc: cfg.voc,
+        via_new: cfg.via_new,
+        memo: cfg.memo,
+        steps,
+    })
 }
 
-pub fn show_facts(f: &Facts) -> String {
+pub fn show_facts_v(f: &Facts, nm: &[&str; 11]) -> String {
     let all = f.get_all_facts();
     let mut out: Vec<(usize, String)> = Vec::new();
     for (k, v) in &all {
-        match FIELDS.iter().position(|x| x == k) {
+        match nm.iter().position(|x| x == k) {
             Some(i) => out.push((i, format!("F{}={}", i, show_val(v)))),
             None => out.push((999, format!("?{}", hex(k)))),
         }
@@ -223,10 +350,17 @@ pub fn show_facts(f: &Facts) -> String {
     if out.is_empty() { "-".into() } else { out.into_iter().map(|x| x.1).collect::<Vec<_>>().join(",") }
 }
 
+pub fn show_facts(f: &Facts) -> String {
+    show_facts_v(f, &FIELDS)
+}
+
 pub fn build_engine(c: &Case, memo: bool) -> BackwardEngine {
     let kb = KnowledgeBase::new("kb");
     for r in &c.rules {
         kb.add_rule(r.clone()).unwrap();
+    }
+    if c.via_new {
+        return BackwardEngine::new(kb);
     }
     BackwardEngine::with_config(
         kb,
@@ -234,23 +368,83 @@ pub fn build_engine(c: &Case, memo: bool) -> BackwardEngine {
     )
 }
 
-fn exec(case: &str) -> String {
-    let Some(c) = parse_case(case) else { return "bad-case".into() };
-    let mut engine = build_engine(&c, true);
+/// the configuration the engine reports (`engine.config()`) is the one it was given
+fn cfg_is(e: &BackwardEngine, strategy: SearchStrategy, d: usize, ms: usize, memo: bool) -> bool {
+    let c = e.config();
+    c.strategy == strategy && c.max_depth == d && c.max_solutions == ms && c.enable_memoization == memo
+}
+
+fn run_query(engine: &mut BackwardEngine, fs: &[(usize, Value)], q: &str, explain: bool, nm: &[&str; 11]) -> String {
     let mut facts = Facts::new();
-    for (k, v) in &c.facts {
-        facts.set(FIELDS[*k], v.clone());
+    for (k, v) in fs {
+        facts.set(nm[*k], v.clone());
     }
-    match engine.query(&c.query, &mut facts) {
+    if explain {
+        return match engine.explain_why(q, &mut facts) {
+            Ok(s) => {
+                let p = if s.starts_with(&format!("Goal '{}' is PROVABLE", q)) {
+                    "1"
+                } else if s.starts_with(&format!("Goal '{}' is NOT provable", q)) {
+                    "0"
+                } else {
+                    "?"
+                };
+                format!("{} {} {} -", p, show_facts_v(&facts, nm), facts.verif_undo_depth())
+            }
+            Err(_) => format!("err {} {} -", show_facts_v(&facts, nm), facts.verif_undo_depth()),
+        };
+    }
+    match engine.query(q, &mut facts) {
         Ok(r) => format!(
             "{} {} {} {}",
             if r.provable { 1 } else { 0 },
-            show_facts(&facts),
+            show_facts_v(&facts, nm),
             facts.verif_undo_depth(),
             r.solutions.len()
         ),
-        Err(_) => format!("err {} {} 0", show_facts(&facts), facts.verif_undo_depth()),
+        Err(_) => format!("err {} {} 0", show_facts_v(&facts, nm), facts.verif_undo_depth()),
     }
+}
+
+fn exec(case: &str) -> String {
+    let Some(c) = parse_case(case) else { return "bad-case".into() };
+    let nm = &VOCS[c.voc];
+    let Some(steps) = &c.steps else {
+        let mut engine = build_engine(&c, true);
+        return run_query(&mut engine, &c.facts, &c.query, false, nm);
+    };
+    let mut engine = build_engine(&c, c.memo);
+    let mut ok_cfg = cfg_is(&engine, c.strategy, c.max_depth, c.max_solutions, c.memo);
+    let mut obs: Vec<String> = Vec::new();
+    for st in steps {
+        match st {
+            Step::Query(fs, q, explain) => obs.push(run_query(&mut engine, fs, q, *explain, nm)),
+            Step::Add(r) => {
+                let _ = engine.knowledge_base().add_rule(r.clone());
+            }
+            Step::Remove(i) => {
+                let _ = engine.knowledge_base().remove_rule(&format!("R{}", i));
+            }
+            Step::Enable(i, b) => {
+                let _ = engine.knowledge_base().set_rule_enabled(&format!("R{}", i), *b);
+            }
+            Step::Clear => engine.knowledge_base().clear(),
+            Step::Rebuild => engine.rebuild_index(),
+            Step::SetConfig(k) => {
+                engine.set_config(BackwardConfig {
+                    max_depth: k.max_depth,
+                    strategy: k.strategy,
+                    enable_memoization: k.memo,
+                    max_solutions: k.max_solutions,
+                });
+                ok_cfg &= cfg_is(&engine, k.strategy, k.max_depth, k.max_solutions, k.memo);
+            }
+        }
+    }
+    if !ok_cfg {
+        obs.push("cfg-mismatch".into());
+    }
+    if obs.is_empty() { "-".into() } else { obs.join(" / ") }
 }
 
 // ---------------------------------------------------------------- generator
@@ -1044,6 +1238,271 @@ fn gen_disabled(rng: &mut Rng) -> (String, u64) {
     (format!("{} {} {}", facts.join(","), q, rules.join(";")), need)
 }
 
+// ------------------------------------------------ histories on one engine (reach audit) and keyword-like field names
+
+fn rand_cfg(rng: &mut Rng) -> String {
+    format!("{}{}s{}", *rng.pick(&["D", "D", "D", "B", "I"]), rng.range(1, 5), *rng.pick(&[1, 1, 1, 3]))
+}
+
+/// the knowledge base is EDITED through `engine.knowledge_base()` between two askings of one top-level goal `F5 == t`, and
+/// `rebuild_index()` is called (3 in 4) or not: the rule concluding the goal is replaced by another one (new name / the SAME
+/// name; rule count unchanged), enabled / disabled in place, added, removed, the base cleared and refilled. The goal is
+/// underivable before and derivable (height 1 or 2) afterwards, or the other way round. Engines built by `with_config`
+/// (memo off / on) and by `new`; 1 in 4 with a `set_config` on the way. Returns the whole case.
+fn gen_hist_edit(rng: &mut Rng) -> String {
+    let mut rules: Vec<String> = Vec::new();
+    // unrelated rules first / last
+    let chain = rng.chance(1, 2);
+    let mut pre = vec!["F6.eq.n1~F0:=t".to_string()];
+    if rng.chance(1, 2) {
+        pre.push("F0.eq.t~F1:=t".to_string());
+    }
+    if rng.chance(1, 3) {
+        pre.push("F6.eq.n1~F8:=t".to_string());
+    }
+    let good = |rng: &mut Rng| -> String {
+        if chain {
+            (*rng.pick(&["F0.eq.t~F5:=t", "&,F0.eq.t,F6.eq.n1~F5:=t", "F0.eq.t~F9:=n1+F5:=t"])).to_string()
+        } else {
+            (*rng.pick(&["F6.eq.n1~F5:=t", "F6.eq.n1~F5:=t+F9:=n1", "&,F6.eq.n1,F6.ne.n2~F5:=t"])).to_string()
+        }
+    };
+    let bad = |rng: &mut Rng| -> String {
+        (*rng.pick(&["F7.eq.t~F5:=t", "F6.eq.n2~F5:=t", "F6.eq.n1~F5:=f", "F7.eq.t~F5:=t+F1:=t"])).to_string()
+    };
+    let goal_first = rng.chance(1, 2);
+    if !goal_first {
+        rules.append(&mut pre);
+    }
+    let g = rules.len();
+    let mut steps: Vec<String> = Vec::new();
+    let mut next;
+    let kind = rng.below(10);
+    match kind {
+        // replaced under a new name / the same name (count unchanged)
+        0 | 1 | 2 | 3 => {
+            rules.push(bad(rng));
+            if goal_first {
+                rules.append(&mut pre);
+            }
+            next = rules.len();
+            let name = if kind == 3 { g } else { next };
+            let add = format!("+{}:{}", name, good(rng));
+            if rng.chance(1, 4) {
+                steps.push(add);
+                steps.push(format!("-{}", g));
+            } else {
+                steps.push(format!("-{}", g));
+                steps.push(add);
+            }
+            next += 1;
+        }
+        // the right rule is there but disabled; enabled in place (or: enabled one disabled in place)
+        4 | 5 => {
+            let en = kind == 4;
+            rules.push(format!("{}{}", if en { "*" } else { "" }, good(rng)));
+            if goal_first {
+                rules.append(&mut pre);
+            }
+            next = rules.len();
+            steps.push(format!("{}{}", if en { "e" } else { "d" }, g));
+        }
+        // an unrelated rule removed, the goal rule added (count unchanged; the index knew nothing about the goal)
+        6 => {
+            if goal_first {
+                rules.append(&mut pre);
+            }
+            rules.push("F6.eq.n1~F3:=t".to_string());
+            next = rules.len();
+            steps.push(format!("-{}", next - 1));
+            steps.push(format!("+{}:{}", next, good(rng)));
+            next += 1;
+        }
+        // added beside a dead one / removed again
+        7 => {
+            rules.push(bad(rng));
+            if goal_first {
+                rules.append(&mut pre);
+            }
+            next = rules.len();
+            steps.push(format!("+{}:{}", next, good(rng)));
+            next += 1;
+        }
+        8 => {
+            rules.push(good(rng));
+            if goal_first {
+                rules.append(&mut pre);
+            }
+            next = rules.len();
+            steps.push(format!("-{}", g));
+            if rng.chance(1, 2) {
+                steps.push(format!("+{}:{}", next, bad(rng)));
+                next += 1;
+            }
+        }
+        // cleared and refilled
+        _ => {
+            rules.push(bad(rng));
+            if goal_first {
+                rules.append(&mut pre);
+            }
+            next = rules.len();
+            steps.push("z".to_string());
+            steps.push(format!("+{}:F6.eq.n1~F0:=t", next));
+            steps.push(format!("+{}:{}", next + 1, good(rng)));
+            next += 2;
+        }
+    }
+    let _ = next;
+    if rng.chance(3, 4) {
+        steps.push("x".to_string());
+    }
+    if rng.chance(1, 4) {
+        let at = rng.below(steps.len() as u64 + 1) as usize;
+        steps.insert(at, format!("c{}{}", rand_cfg(rng), if rng.chance(1, 3) { "m" } else { "" }));
+    }
+    if rng.chance(3, 4) {
+        steps.insert(0, "?".to_string());
+    }
+    steps.push((*rng.pick(&["?", "?", "?", "w"])).to_string());
+    if rng.chance(1, 3) {
+        // a second round: undo / redo something, rebuild, ask again (also on other facts / for another field)
+        steps.push(match rng.below(4) {
+            0 => format!("-{}", rng.below(rules.len() as u64 + 2)),
+            1 => format!("d{}", rng.below(rules.len() as u64 + 2)),
+            2 => format!("e{}", rng.below(rules.len() as u64 + 2)),
+            _ => format!("+{}:F6.eq.n1~F5:={}", rules.len() + 5, *rng.pick(&["t", "f"])),
+        });
+        if rng.chance(2, 3) {
+            steps.push("x".to_string());
+        }
+        steps.push((*rng.pick(&["?", "?-?F5.eq.t", "?F6=n1?F1.eq.t", "?F6=n1,F7=t?F5.eq.t"])).to_string());
+    }
+    let mut cfg = match rng.below(8) {
+        0 | 1 => "N10s1".to_string(),
+        2 => format!("D{}s1m", rng.range(2, 4)),
+        3 => format!("{}{}s1", *rng.pick(&["B", "I"]), rng.range(2, 4)),
+        4 => format!("D{}s3", rng.range(2, 4)),
+        _ => format!("D{}s1", rng.range(2, 4)),
+    };
+    // with memoisation on, a query repeated on an UNCHANGED knowledge base is answered from the cache (C11's subject; a cached
+    // `provable` hands the facts back untouched): such histories run with memoisation off
+    let mut asked: Vec<(String, String)> = Vec::new();
+    let mut repeat = false;
+    for st in &steps {
+        if st.starts_with('?') || st == "w" {
+            let key = (if st == "w" { "?".to_string() } else { st.clone() }, String::new());
+            if asked.contains(&key) {
+                repeat = true;
+            }
+            asked.push(key);
+        } else if st.starts_with('+') || st.starts_with('-') || st.starts_with('e') || st.starts_with('d') || st == "z" {
+            // the second-round edits may name a rule that does not exist (no change); the first-round ones always change the base
+            if !(steps.len() > 2 && steps.iter().rev().take(3).any(|x| x == st)) {
+                asked.clear();
+            }
+        }
+    }
+    if repeat {
+        if cfg.starts_with('N') || cfg.ends_with('m') {
+            cfg = format!("D{}s1", rng.range(2, 4));
+        }
+        steps.retain(|x| !(x.starts_with('c') && x.ends_with('m')));
+    }
+    // … except for a goal that is NOT provable yet: asked twice before the edit, the second answer comes from the cache
+    // (with memoisation on) and the edit has to invalidate it
+    if kind != 5 && kind != 8 && steps[0] == "?" && rng.chance(1, 3) {
+        steps.insert(1, "?".to_string());
+    }
+    let mut facts = if rng.chance(7, 8) { "F6=n1" } else { "-" };
+    if steps[0] == "?" && steps[1] != "?" && rng.chance(1, 10) {
+        // the goal already holds in the facts: a cached `provable` hands back facts in which it is true
+        facts = "F6=n1,F5=t";
+        steps.insert(1, "?".to_string());
+    }
+    format!("{} {} F5.eq.t {} {}", cfg, facts, rules.join(";"), steps.join("@"))
+}
+
+/// a random rule over the fields 0..nf
+fn rand_rule(rng: &mut Rng, nf: u64, horn: bool) -> String {
+    if horn {
+        let c = if rng.chance(1, 3) {
+            format!("&,F{}.eq.t,F{}.eq.t", rng.below(nf), rng.below(nf))
+        } else {
+            format!("F{}.eq.{}", rng.below(nf), *rng.pick(&["t", "t", "n1"]))
+        };
+        format!("{}~F{}:=t", c, rng.below(nf))
+    } else {
+        format!("{}~F{}:={}", rand_cond(rng, nf, false, 0), rng.below(nf), rand_val(rng, false))
+    }
+}
+
+/// random histories: a generated problem (Horn / chain / general / disabled rules), then 3..8 steps — queries (the base one,
+/// on other facts, for another field, negated, through explain_why), add / remove / enable / disable / clear, rebuild_index,
+/// set_config — in random order; with memoisation on, every query comes after an edit.
+fn gen_hist_random(rng: &mut Rng) -> String {
+    let body = match rng.below(5) {
+        0 | 1 => gen_horn(rng, false),
+        2 => gen_shape(rng),
+        3 => gen_general(rng),
+        _ => gen_disabled(rng).0,
+    };
+    let t: Vec<&str> = body.split(' ').collect();
+    let nrules = if t[2] == "-" { 0 } else { t[2].split(';').count() } as u64;
+    let nf = 7u64;
+    let memo = rng.chance(1, 5);
+    // (no `new` engines here: their max_depth is 10, and on the cyclic knowledge bases random edits produce the search —
+    // code and model — is exponential in the depth; gen_hist_edit and the single-query family cover `new`)
+    let cfg = format!("{}{}", rand_cfg(rng), if memo { "m" } else { "" });
+    let mut next = nrules;
+    let mut steps: Vec<String> = Vec::new();
+    let edit = |rng: &mut Rng, next: &mut u64| -> String {
+        match rng.below(10) {
+            0..=2 => format!("-{}", rng.below(*next + 1)),
+            3..=5 => {
+                *next += 1;
+                let horn = rng.chance(2, 3);
+                format!("+{}:{}{}", *next - 1, if rng.chance(1, 8) { "*" } else { "" }, rand_rule(rng, nf, horn))
+            }
+            6 => format!("+{}:{}", rng.below(*next + 1), rand_rule(rng, nf, true)), // mostly an existing name: rejected
+            7 => format!("d{}", rng.below(*next + 1)),
+            8 => format!("e{}", rng.below(*next + 1)),
+            _ => if rng.chance(1, 3) { "z".to_string() } else { format!("d{}", rng.below(*next + 1)) },
+        }
+    };
+    for _ in 0..rng.range(3, 8) {
+        match rng.below(10) {
+            0..=3 => {
+                if memo {
+                    // an edit that always changes the knowledge base (fresh name): no query is answered from the memo cache
+                    next += 1;
+                    steps.push(format!("+{}:{}", next - 1, rand_rule(rng, nf, true)));
+                }
+                steps.push(match rng.below(8) {
+                    0 => "w".to_string(),
+                    1 => format!("?{}?{}", t[0], rand_atom(rng, nf, true)),
+                    2 => format!("?F6=n1,F0=t?{}", t[1]),
+                    3 => format!("?-?{}", t[1]),
+                    4 => format!("?{}?!{}", t[0], t[1]),
+                    _ => "?".to_string(),
+                });
+            }
+            4..=6 => steps.push(edit(rng, &mut next)),
+            7 | 8 => steps.push("x".to_string()),
+            _ => steps.push(format!("c{}{}", rand_cfg(rng), if memo && rng.chance(1, 2) { "m" } else { "" })),
+        }
+    }
+    if memo {
+        next += 1;
+        steps.push(format!("+{}:{}", next - 1, rand_rule(rng, nf, true)));
+    }
+    if rng.chance(2, 3) {
+        steps.push("x".to_string());
+    }
+    steps.push("?".to_string());
+    format!("{} {} {}", cfg, body, steps.join("@"))
+}
+
 fn gen(rng: &mut Rng, n: usize, _tier: &str) -> Vec<String> {
     let mut out = Vec::new();
     for i in 0..n {
@@ -1165,11 +1624,90 @@ fn gen(rng: &mut Rng, n: usize, _tier: &str) -> Vec<String> {
             out.push(format!("D{}s{} {} !{} {}", d, *rng.pick(&[1, 3]), t[0], t[1], t[2]));
         }
     }
+    // history family (reach audit): knowledge-base edits / rebuild_index / set_config between queries on ONE engine
+    for i in 0..n / 6 {
+        out.push(if i % 3 == 2 { gen_hist_random(rng) } else { gen_hist_edit(rng) });
+    }
+    // engines built by `BackwardEngine::new` (default configuration), single query
+    for _ in 0..n / 40 {
+        // acyclic chain / diamond shapes (max_depth is 10: a cycle makes the search exponential in it), 1 in 3 with disabled rules
+        let body = loop {
+            let b = gen_shape(rng);
+            if !b.contains("F5.eq.t~F0:=t") {
+                break b;
+            }
+        };
+        let t: Vec<&str> = body.split(' ').collect();
+        let k = rng.below(3);
+        out.push(format!("N10s1 {} {} {}", t[0], t[1], if k == 0 { disable_some(rng, t[2], 1) } else { t[2].to_string() }));
+    }
+    // negative number literals (`-1`) in facts, assignments, rule conditions that become sub-goals (goal pattern text -> value
+    // parser, one copy per strategy) and query literals, under every strategy
+    for _ in 0..n / 60 {
+        let a = rng.range(1, 3);
+        let b = rng.range(1, 3);
+        let mut rules = vec![format!("F6.{}.n-{}~F0:=n-{}", *rng.pick(&["eq", "le", "lt", "ne"]), a, b)];
+        let q = match rng.below(4) {
+            0 => format!("F0.eq.n-{}", b),
+            1 => format!("F0.{}.n{}", *rng.pick(&["lt", "le", "gt", "ne"]), *rng.pick(&["0", "-1", "-2", "-3"])),
+            _ => {
+                rules.push(format!("F0.{}.n-{}~F5:=t", *rng.pick(&["eq", "eq", "le", "ge"]), rng.range(1, 3)));
+                "F5.eq.t".to_string()
+            }
+        };
+        rng.shuffle(&mut rules);
+        let facts = format!("F6=n-{}{}", rng.range(1, 3), if rng.chance(1, 4) { ",F0=n-3" } else { "" });
+        for strat in ["D", "B", "I"] {
+            out.push(format!("{}{}s1 {} {} {}", strat, rng.range(1, 3), facts, q, rules.join(";")));
+        }
+    }
+    // keyword-like field names (vocabulary v1: NOTICE, ORDER, ANDROID, trueCount, NOTE, nullable, inStock, NOTIFY.Sent, NOT.Q):
+    // the generated problems again, each under EVERY strategy; 1 in 5 as the negated query; 1 in 6 a history
+    for i in 0..n / 8 {
+        if i % 6 == 5 {
+            let h = gen_hist_edit(rng);
+            let (cfg, rest) = h.split_once(' ').unwrap();
+            out.push(format!("{}v1 {}", cfg, rest));
+            continue;
+        }
+        let (body, need) = match rng.below(6) {
+            0 | 1 => (gen_horn(rng, false), 3),
+            2 => (gen_shape(rng), 6),
+            3 => (gen_general(rng), 3),
+            4 => gen_disabled(rng),
+            _ => (gen_actions(rng), 4),
+        };
+        let d = (need + rng.below(2)).min(6);
+        let t: Vec<&str> = body.split(' ').collect();
+        let neg = if rng.chance(1, 5) { "!" } else { "" };
+        for strat in ["D", "B", "I"] {
+            out.push(format!("{}{}s1v1 {} {}{} {}", strat, d, t[0], neg, t[1], t[2]));
+        }
+    }
     out
 }
 
 fn shrink(case: &str) -> Vec<String> {
     let t: Vec<&str> = case.split_whitespace().collect();
+    if t.len() == 5 {
+        // a history: drop steps (rule names are explicit, so the rest keeps its meaning), then shrink the rest
+        let steps: Vec<String> = if t[4] == "-" { vec![] } else { t[4].split('@').map(|s| s.to_string()).collect() };
+        let mut out = Vec::new();
+        for v in shrink_list(&steps) {
+            out.push(format!("{} {} {} {} {}", t[0], t[1], t[2], t[3], if v.is_empty() { "-".to_string() } else { v.join("@") }));
+        }
+        // only trailing rules can go (names are positions)
+        if t[3] != "-" {
+            let rs: Vec<&str> = t[3].split(';').collect();
+            let rest = if rs.len() == 1 { "-".to_string() } else { rs[..rs.len() - 1].join(";") };
+            out.push(format!("{} {} {} {} {}", t[0], t[1], t[2], rest, t[4]));
+        }
+        let facts: Vec<String> = if t[1] == "-" { vec![] } else { t[1].split(',').map(|s| s.to_string()).collect() };
+        for v in shrink_list(&facts) {
+            out.push(format!("{} {} {} {} {}", t[0], if v.is_empty() { "-".to_string() } else { v.join(",") }, t[2], t[3], t[4]));
+        }
+        return out;
+    }
     if t.len() != 4 {
         return vec![];
     }
@@ -1209,7 +1747,7 @@ fn shrink(case: &str) -> Vec<String> {
     // smaller depth
     if let Some((d, s)) = t[0][1..].split_once('s') {
         if let Ok(dn) = d.parse::<usize>() {
-            if dn > 0 {
+            if dn > 0 && !t[0].starts_with('N') {
                 out.push(format!("{}{}s{} {} {} {}", &t[0][..1], dn - 1, s, t[1], t[2], t[3]));
             }
         }
